@@ -95,7 +95,9 @@ func (r *resolver) ingestTable(iss *Issue, tbl *objects.Table) (sum []byte, err 
 			return nil, fmt.Errorf("objects.GetBlock error: %v", err)
 		}
 		for _, row := range blk {
-			r.srt.AddRow(row)
+			if err = r.srt.AddRow(row); err != nil {
+				return nil, err
+			}
 		}
 	}
 	inserter := ingest.NewInserter(r.db, r.srt, r.logger)
